@@ -236,8 +236,21 @@ def check_C11(tier, seed, rest):
     t0 = time.time()
     r = engine_a(tier, seed, "sub", sub_corpus(tier, seed))
     v = [as_violation(f) for f in r["findings"] if f["kind"] in ("munch", "err_span", "eoi", "crash", "partial_wrong")]
-    # undefined references must be rejected: verdict comes from the capture metadata
-    finish("C11", tier, seed, "model_checking", a_coverage(r, {"rule": "subpattern corpus: references at start/middle/end, alternations and inline flags inside subpatterns, nested references, byte-string subpatterns; reference = own inlining into non-capturing groups with the subpattern's own Unicode flag; then Attempt.tla + replay"}), v, t0, ASSUME_A)
+    # a subpattern source that is not a regex on its own has no "non-capturing group holding the subpattern's source":
+    # it must be rejected, or its parentheses / flags / alternations leak into the pattern that uses it
+    bad = [("a)|(b", "x(?&s0)y"), ("a)(?i", "(?&s0)b"), ("a|b)(c", "(?&s0)"), ("(a", "(?&s0))"), ("a)", "((?&s0)"), ("a)|(?&s1", "x(?&s0))"), ("[a", "(?&s0)]")]
+    bdefs = [corpus.mk("subbad%d" % k, [corpus.rx(user, prio=9), corpus.rx("[a-z]", prio=1)], subs=[("s1", "q")] * (1 if "s1" in body else 0) + [("s0", body)], tags=["sub"]) for k, (body, user) in enumerate(bad)]
+    bdefs += [corpus.mk("subbadb%d" % k, [corpus.rx(user.encode(), prio=9), corpus.rx(b"[a-z]", prio=1)], subs=[("s0", body.encode())], utf8=False, tags=["sub"]) for k, (body, user) in enumerate(bad[:4])]
+    _, bmetas, _ = capture(bdefs, "subbad")
+    for m in bmetas:
+        if m["panic"]:
+            v.append({"key": "%s:panic" % m["id"], "what": "derive panicked on a malformed subpattern: %s" % m["panic"][:200], "definition": m["src"]})
+        elif m["accepted"]:
+            v.append({"key": "%s:accepted" % m["id"], "what": "a subpattern whose source is not a regex on its own was accepted: its text leaks into the pattern that references it", "definition": m["src"]})
+    cov = a_coverage(r, {"rule": "subpattern corpus: references at start/middle/end, alternations and inline flags inside subpatterns, nested references, byte-string subpatterns; reference = own inlining into non-capturing groups with the subpattern's own Unicode flag; then Attempt.tla + replay; "
+                                 "%d definitions whose subpattern source is not a regex on its own (unbalanced parentheses, brackets, a flag group cut in two) must be rejected" % len(bdefs)})
+    cov["malformed_subpattern_definitions"] = len(bdefs)
+    finish("C11", tier, seed, "model_checking", cov, v, t0, ASSUME_A)
 
 
 def check_C08(tier, seed, rest):
